@@ -74,6 +74,8 @@ type action struct {
 	I      int      `json:"i"`
 	C      int      `json:"c"`
 	S      int      `json:"s"`
+	// response_flags of the v0.10 request: "" / "none" (parameter omitted), "empty", "own", "bad"
+	Fl string `json:"fl,omitempty"`
 	// Restart
 	Graceful bool `json:"graceful"`
 	// ReadDuring: the request in flight and the mutators applied while it is being served
@@ -103,6 +105,13 @@ type result struct {
 	Diff   *diffT   `json:"diff,omitempty"`
 	V      int      `json:"v"`
 	C      int      `json:"c,omitempty"`
+	// kind "feltlub" (getStorageAt with INCLUDE_LAST_UPDATE_BLOCK): last_update_block as the new-state
+	// backend (lub) and the legacy backend (lubL) report it; the property demands the same of both
+	Lub  int `json:"lub"`
+	LubL int `json:"lubL"`
+	// what `proof_facts` shows in the transaction object(s): "absent", "empty", "facts"
+	Pf   string   `json:"pf,omitempty"`
+	Pfs  []string `json:"pfs,omitempty"`
 	Note   string   `json:"note,omitempty"` // harness-side detail of a concrete mismatch
 	// kind "oneof" (ReadDuring): the answer in each chain the node held during the call
 	Allowed []result `json:"allowed,omitempty"`
@@ -114,6 +123,9 @@ type step struct {
 	Want  result `json:"want"`
 	Chain []int  `json:"chain"`
 	L1    int    `json:"l1"`
+	// what the same request without response_flags must be answered (reads that carry flags only)
+	Want0 result `json:"want0"`
+	Res0  result `json:"res0"`
 }
 
 type input struct {
@@ -199,6 +211,16 @@ func (w *world) tx(t int) (core.Transaction, *core.TransactionReceipt) {
 		kind = "invoke0"
 	}
 	tx := g.Tx(kind)
+	if inv, ok := tx.(*core.InvokeTransaction); ok && hasFacts(t) {
+		// RpcRead!HasFacts: the INVOKE v3 transactions of the even heights carry proof facts (which
+		// enter the transaction hash)
+		inv.ProofFacts = g.Felts(1 + t/10)
+		h, err := core.TransactionHash(tx, chainkit.Network)
+		if err != nil {
+			panic(err)
+		}
+		chainkit.SetTxHash(tx, &h)
+	}
 	if l1, ok := tx.(*core.L1HandlerTransaction); ok && t%10 == 7 {
 		// legacy form: early L1 handlers carry no nonce; their hash is not recomputed
 		l1.Nonce = nil
@@ -221,6 +243,8 @@ func (w *world) tx(t int) (core.Transaction, *core.TransactionReceipt) {
 	w.txs[t], w.rcs[t] = tx, rc
 	return tx, rc
 }
+
+func hasFacts(t int) bool { return t%10 == 1 && (t/10)%2 == 0 }
 
 func (w *world) txHash(t int) *felt.Felt {
 	tx, _ := w.tx(t)
@@ -490,8 +514,58 @@ func spell(f *felt.Felt, variant int) string {
 	return "0x" + h
 }
 
-func (s *sut) params(w *world, a *action) map[string]any {
+// flagged tells whether the read carries the v0.10 response_flags parameter.
+func flagged(a *action) bool { return a.Fl != "" && a.Fl != "none" }
+
+// ownFlag is the response flag the method knows; otherFlag the one of the other method family.
+func ownFlag(method string) (own, other string) {
+	if method == "getStorageAt" {
+		return "INCLUDE_LAST_UPDATE_BLOCK", "INCLUDE_PROOF_FACTS"
+	}
+	return "INCLUDE_PROOF_FACTS", "INCLUDE_LAST_UPDATE_BLOCK"
+}
+
+// flagsParam concretises the abstract flag value of RpcRead.tla: "empty" is the empty list, "own" the
+// method's flag once or repeated, "bad" one of the ways a client can get the parameter wrong (all of
+// them INVALID_PARAMS): an unknown flag alone / before / after the known one, the other family's flag,
+// another spelling, a bare string, a non-string element, an object.
+func flagsParam(a *action, salt uint64) (any, string) {
+	own, other := ownFlag(a.Name)
+	switch a.Fl {
+	case "empty":
+		return []string{}, "empty"
+	case "own":
+		if salt%2 == 1 {
+			return []string{own, own}, "own" // listed twice
+		}
+		return []string{own}, "own"
+	}
+	switch salt % 8 {
+	case 0:
+		return []string{"INCLUDE_NOTHING"}, "unknown"
+	case 1:
+		return []string{other}, "foreign"
+	case 2:
+		return []string{own, "INCLUDE_NOTHING"}, "own+unknown"
+	case 3:
+		return []string{other, own}, "foreign+own"
+	case 4:
+		return []string{strings.ToLower(own)}, "lower-case"
+	case 5:
+		return own, "bare-string"
+	case 6:
+		return []any{own, 1}, "non-string-element"
+	}
+	return map[string]any{own: true}, "object"
+}
+
+// params builds the named parameters of the request for one API version: response_flags exists on
+// v0.10 only; v0.8 / v0.9 are asked the same question without it.
+func (s *sut) params(w *world, a *action, version string, salt uint64) map[string]any {
 	p := map[string]any{}
+	if flagged(a) && version == "v10" {
+		p["response_flags"], _ = flagsParam(a, salt)
+	}
 	if a.ID != nil {
 		p["block_id"] = s.idParam(w, a.ID)
 	}
@@ -640,6 +714,37 @@ func (s *sut) project(w *world, a *action, resp map[string]any) result {
 	txView := func(m map[string]any, hashField string) (int, string) {
 		return w.txID(str(m[hashField])), str(m["type"])
 	}
+	// pfOf classifies `proof_facts` of transaction object m (abstract id t): absent / empty / facts;
+	// a payload is compared with the one the stored transaction carries
+	pfOf := func(res *result, m map[string]any, t int) string {
+		v, ok := m["proof_facts"]
+		if !ok {
+			return "absent"
+		}
+		l, isList := v.([]any)
+		if !isList {
+			note(res, "proof_facts of tx %d is %v, not a list", t, v)
+			return "malformed"
+		}
+		if len(l) == 0 {
+			return "empty"
+		}
+		var stored []felt.Felt
+		if tx, ok := w.txs[t].(*core.InvokeTransaction); ok {
+			stored = tx.ProofFacts
+		}
+		if len(stored) != len(l) {
+			note(res, "proof_facts of tx %d has %d elements, the stored transaction %d", t, len(l), len(stored))
+			return "facts"
+		}
+		for i := range l {
+			if str(l[i]) != stored[i].String() {
+				note(res, "proof_facts[%d] of tx %d is %v, stored %s", i, t, l[i], &stored[i])
+				break
+			}
+		}
+		return "facts"
+	}
 	switch a.Name {
 	case "blockNumber", "getBlockTransactionCount":
 		return result{Kind: "num", N: num(r)}
@@ -649,7 +754,7 @@ func (s *sut) project(w *world, a *action, resp map[string]any) result {
 	case "getBlockWithTxHashes", "getBlockWithTxs", "getBlockWithReceipts":
 		m := obj(r)
 		res := result{Kind: "block", N: num(m["block_number"]), Hash: s.pathOfHash(m["block_hash"]),
-			Status: str(m["status"]), Txs: []int{}, Execs: []string{}}
+			Status: str(m["status"]), Txs: []int{}, Execs: []string{}, Pfs: []string{}}
 		if str(m["parent_hash"]) == "0x0" {
 			res.Parent = []int{}
 		} else {
@@ -671,9 +776,11 @@ func (s *sut) project(w *world, a *action, resp map[string]any) result {
 			switch a.Name {
 			case "getBlockWithTxHashes":
 				res.Txs = append(res.Txs, w.txID(str(x)))
+				res.Pfs = append(res.Pfs, "absent")
 			case "getBlockWithTxs":
 				t, typ := txView(obj(x), "transaction_hash")
 				res.Txs = append(res.Txs, t)
+				res.Pfs = append(res.Pfs, pfOf(&res, obj(x), t))
 				if typ != txType(t) {
 					note(&res, "tx %d has type %s", t, typ)
 				}
@@ -682,6 +789,7 @@ func (s *sut) project(w *world, a *action, resp map[string]any) result {
 				t := w.txID(str(rc["transaction_hash"]))
 				res.Txs = append(res.Txs, t)
 				res.Execs = append(res.Execs, str(rc["execution_status"]))
+				res.Pfs = append(res.Pfs, pfOf(&res, obj(obj(x)["transaction"]), t))
 				if str(rc["finality_status"]) != res.Status {
 					note(&res, "receipt of tx %d has finality %v in a block with status %s", t, rc["finality_status"], res.Status)
 				}
@@ -693,7 +801,9 @@ func (s *sut) project(w *world, a *action, resp map[string]any) result {
 		return res
 	case "getTransactionByHash", "getTransactionByBlockIdAndIndex":
 		t, typ := txView(obj(r), "transaction_hash")
-		return result{Kind: "tx", T: t, Type: typ}
+		res := result{Kind: "tx", T: t, Type: typ}
+		res.Pf = pfOf(&res, obj(r), t)
+		return res
 	case "getTransactionReceipt":
 		m := obj(r)
 		t, typ := txView(m, "transaction_hash")
@@ -771,6 +881,15 @@ func (s *sut) project(w *world, a *action, resp map[string]any) result {
 		res.Diff = normDiff(d)
 		return res
 	case "getStorageAt", "getNonce":
+		if m, isObj := r.(map[string]any); isObj {
+			// the v0.10 form {value, last_update_block}
+			res := result{Kind: "feltlub", V: feltInt(m["value"]), Lub: num(m["last_update_block"])}
+			res.LubL = res.Lub
+			if len(m) != 2 {
+				note(&res, "result object has fields %v", m)
+			}
+			return res
+		}
 		return result{Kind: "felt", V: feltInt(r)}
 	case "getClassHashAt":
 		return result{Kind: "classhash", C: inv(w.classH, r)}
@@ -838,7 +957,7 @@ func firstDiff(method string, got, want *result) string {
 		if want.Kind == "err" {
 			return got.Kind + "-for-err-" + want.E
 		}
-		return "kind"
+		return got.Kind + "-for-" + want.Kind
 	}
 	switch want.Kind {
 	case "err":
@@ -870,6 +989,8 @@ func firstDiff(method string, got, want *result) string {
 			return "transactions"
 		case method == "getBlockWithReceipts" && !eqJSON(got.Execs, want.Execs):
 			return "execution_status"
+		case !eqJSON(got.Pfs, want.Pfs) && !(len(got.Pfs) == 0 && len(want.Pfs) == 0):
+			return "proof_facts:" + pfDiff(got.Pfs, want.Pfs)
 		}
 	case "tx":
 		if got.T != want.T {
@@ -877,6 +998,9 @@ func firstDiff(method string, got, want *result) string {
 		}
 		if got.Type != want.Type {
 			return "type"
+		}
+		if got.Pf != want.Pf {
+			return "proof_facts:" + got.Pf + "-for-" + want.Pf
 		}
 	case "receipt":
 		switch {
@@ -915,6 +1039,24 @@ func firstDiff(method string, got, want *result) string {
 		if got.V != want.V {
 			return "value"
 		}
+	case "feltlub":
+		if got.V != want.V {
+			return "value"
+		}
+		if got.Lub != want.Lub {
+			// how the reported last-update block relates to the right one, and the kind of slot value
+			rel, val := "above", "nonzero"
+			if got.Lub < want.Lub {
+				rel = "below"
+			}
+			if got.Lub == 0 {
+				rel = "never"
+			}
+			if want.V == 0 {
+				val = "zero"
+			}
+			return "last_update_block:" + rel + ":value-" + val
+		}
 	case "classhash", "class":
 		if got.C != want.C {
 			return "class"
@@ -924,6 +1066,19 @@ func firstDiff(method string, got, want *result) string {
 		return "concrete"
 	}
 	return ""
+}
+
+// pfDiff names the first position where the proof_facts classes of a block's transactions differ.
+func pfDiff(got, want []string) string {
+	if len(got) != len(want) {
+		return "length"
+	}
+	for i := range got {
+		if got[i] != want[i] {
+			return got[i] + "-for-" + want[i]
+		}
+	}
+	return "?"
 }
 
 var stateMethods = map[string]bool{"getStorageAt": true, "getNonce": true, "getClassHashAt": true, "getClassAt": true, "getClass": true}
@@ -1195,13 +1350,130 @@ func callFailure(err error) string {
 	return "transport"
 }
 
+// unflag is what the same request must be answered without response_flags: the fields the flags add
+// taken away (RpcRead!StripFlagFields). Only for well-formed flags.
+func unflag(want *result) result {
+	w := *want
+	switch w.Kind {
+	case "feltlub":
+		w = result{Kind: "felt", V: want.V}
+	case "tx":
+		w.Pf = "absent"
+	case "block":
+		w.Pfs = make([]string, len(want.Pfs))
+		for i := range w.Pfs {
+			w.Pfs[i] = "absent"
+		}
+	case "oneof":
+		w.Allowed = make([]result, len(want.Allowed))
+		for i := range want.Allowed {
+			w.Allowed[i] = unflag(&want.Allowed[i])
+		}
+	}
+	return w
+}
+
+// resolveIn is the harness-side reading of a block identifier against the model's chain and L1 head
+// (-1 = denotes no block).
+func resolveIn(id *blockID, chain []int, l1 int) int {
+	switch id.K {
+	case "num":
+		if id.N < len(chain) {
+			return id.N
+		}
+	case "hash":
+		if len(id.H) >= 1 && len(id.H) <= len(chain) && eqInts(id.H, chain[:len(id.H)]) {
+			return len(id.H) - 1
+		}
+	case "latest":
+		return len(chain) - 1
+	case "l1_accepted":
+		if l1 >= 0 && len(chain) > 0 {
+			return min(l1, len(chain)-1)
+		}
+	}
+	return -1
+}
+
+// lastWriteOracle computes last_update_block independently of the specification: from the state
+// updates of the blocks the harness STORED along the current chain (the diffs handed to
+// Blockchain.Store), the last block <= n whose diff has an entry for the slot; 0 if none.
+// changed is the same restricted to the entries that CHANGE something as the legacy trie sees it
+// (everything but zero written to a slot that is zero): what the legacy backend's history holds.
+func (r *replayer) lastWriteOracle(chain []int, n, c, slot int) (last, changed int, ok bool) {
+	addr, key := r.w.addr[c], r.w.slot[slot]
+	var cur felt.Felt
+	for m := 0; m <= n && m < len(chain); m++ {
+		b, ok := r.s.built[pathKey(chain[:m+1])]
+		if !ok {
+			return 0, 0, false
+		}
+		if d, ok := b.Update.StateDiff.StorageDiffs[*addr]; ok {
+			if v, ok := d[*key]; ok {
+				last = m
+				if !(v.IsZero() && cur.IsZero()) {
+					changed = m
+				}
+				cur = *v
+			}
+		}
+	}
+	return last, changed, true
+}
+
+// countFlagged records which regions of the response-flag dimension the run reached (vacuity guards).
+func (r *replayer) countFlagged(a *action, got *result, chain []int, l1 int, reverted bool) {
+	switch got.Kind {
+	case "feltlub":
+		n := resolveIn(a.ID, chain, l1)
+		switch {
+		case got.V == 0 && got.Lub > 0:
+			r.out.Count("lub:cleared-or-zero-written", 1)
+		case got.V == 0:
+			r.out.Count("lub:never-written", 1)
+		case got.Lub < n:
+			r.out.Count("lub:older-than-block", 1)
+		default:
+			r.out.Count("lub:at-block", 1)
+		}
+		if reverted && got.Lub > 0 {
+			r.out.Count("lub:after-revert", 1)
+		}
+		if a.ID.K != "num" {
+			r.out.Count("lub:by-"+a.ID.K, 1)
+		}
+	case "tx":
+		r.out.Count("pf:tx:"+got.Pf, 1)
+	case "block":
+		for _, p := range got.Pfs {
+			r.out.Count("pf:block:"+p, 1)
+		}
+	}
+}
+
 // read sends the request of a read step to the three versions and judges every answer by the
-// property's demand `want` (`res`, the model of the code as it is, only classifies a difference).
-func (r *replayer) read(beh []step, idx int, a *action, want, res *result, chain []int, l1 int) {
-	params := r.s.params(r.w, a)
+// property's demand `want` (`res`, the answer of the model of the code as it is, only classifies a
+// difference). A request with response_flags goes to v0.10 as it is; v0.8 / v0.9, which have no such
+// parameter, get the same request without it and are judged by want0.
+func (r *replayer) read(beh []step, idx int, a *action, want, res, want0, res0 *result, chain []int, l1 int) {
+	salt := hashOf(r.w.seed, idx, a, "flags")
 	raw := map[string]map[string]any{}
 	shape := shapeOf(a, want, len(chain))
+	flagShape := ""
+	if flagged(a) {
+		_, fs := flagsParam(a, salt)
+		flagShape = ":flags-" + fs
+		r.out.Count("flagged_requests", 1)
+		r.out.Count("flags:"+fs, 1)
+	}
+	reverted := false
+	for i := 0; i < idx; i++ {
+		if beh[i].A.Name == "Revert" || beh[i].A.Name == "ReadDuring" {
+			reverted = true
+		}
+	}
 	for _, v := range versions {
+		params := r.s.params(r.w, a, v, salt)
 		resp, out, req, err := r.s.call(v, a.Name, params)
 		if err != nil {
 			r.diverge(fmt.Sprintf("rpc-read:%s:%s:%s", a.Name, v, callFailure(err)), "HandleReader failed: "+err.Error(), beh, idx, nil, req)
@@ -1211,30 +1483,60 @@ func (r *replayer) read(beh []step, idx int, a *action, want, res *result, chain
 		raw[v] = resp
 		got := r.s.project(r.w, a, resp)
 		r.out.Count("requests", 1)
-		wantV := *want
+		wantV, resV, fshape := *want, res, flagShape
+		if v != "v10" && flagged(a) {
+			wantV, resV, fshape = *want0, res0, ""
+		}
 		if v == "v8" && isTag(a) {
 			// spec difference: v0.8 has no such tag
 			wantV = result{Kind: "err", E: "InvalidParams"}
+		}
+		if v == "v10" && wantV.Kind == "feltlub" {
+			// the independent oracle (stored state updates) must agree with the specification's demand
+			if n := resolveIn(a.ID, chain, l1); n >= 0 {
+				if o, _, ok := r.lastWriteOracle(chain, n, a.C, a.S); ok {
+					r.out.Count("lub_oracle_checks", 1)
+					if o != wantV.Lub {
+						r.out.Count("lub_oracle_disagrees_with_spec", 1)
+						r.out.Sample(vh.J{"oracle": o, "spec": wantV.Lub, "chain": chain, "action": a})
+					}
+				}
+			}
 		}
 		d := firstDiff(a.Name, &got, &wantV)
 		if d == "" {
 			if wantV.Kind != "err" {
 				r.out.Count("answers_with_data", 1)
 				r.out.Count("data:"+a.Name, 1)
+				if v == "v10" && a.Fl == "own" {
+					r.countFlagged(a, &got, chain, l1, reverted)
+				}
 			} else {
 				r.out.Count("err:"+wantV.E, 1)
+				if v == "v10" && a.Fl == "bad" {
+					r.out.Count("flags:bad-refused", 1)
+				}
 			}
 			continue
 		}
 		// classify: one of the known deviations of the code as it is (the faithful model `res`
 		// differs from the property's `want` exactly there), or something new
-		key := fmt.Sprintf("rpc-read:%s:%s:%s:%s", a.Name, v, shape, d)
-		if !eqJSON(res, want) {
+		key := fmt.Sprintf("rpc-read:%s:%s:%s%s:%s", a.Name, v, shape, fshape, d)
+		if res := resV; !eqJSON(res, &wantV) {
 			switch {
 			case a.Name == "getTransactionByBlockIdAndIndex" && shape == "num-absent" && firstDiff(a.Name, &got, res) == "":
 				key = fmt.Sprintf("rpc-read:txindex-absent-block-number:%s", v)
 			case stateMethods[a.Name] && shape == "hash-zero" && res.Kind == "pseudo":
 				key = fmt.Sprintf("rpc-read:state-at-zero-hash:%s:%s", a.Name, r.s.backend)
+			}
+		}
+		if v == "v10" && wantV.Kind == "feltlub" && got.Kind == "feltlub" && got.V == wantV.V && !r.s.newState {
+			// the legacy backend does not log a zero written to a slot that is zero (RpcRead!LegacyLogs;
+			// here recomputed from the stored state updates so that it also classifies re-reads after
+			// an in-flight step, for which the specification carries no as-is answer)
+			if _, changed, ok := r.lastWriteOracle(chain, resolveIn(a.ID, chain, l1), a.C, a.S); ok &&
+				changed != wantV.Lub && got.Lub == changed {
+				key = fmt.Sprintf("rpc-read:last-update-block:legacy-unlogged-zero-write:%s", r.s.backend)
 			}
 		}
 		what := fmt.Sprintf("%s %s (%s) answered %s where the chain %v with L1 head %d demands %s",
@@ -1253,6 +1555,9 @@ func (r *replayer) read(beh []step, idx int, a *action, want, res *result, chain
 		if pair[0] == "v8" && isTag(a) {
 			continue
 		}
+		if pair[1] == "v10" && a.Fl == "bad" {
+			continue // v0.10 refuses the parameter v0.9 does not have
+		}
 		_, xe := x["error"]
 		_, ye := y["error"]
 		var d string
@@ -1264,12 +1569,20 @@ func (r *replayer) read(beh []step, idx int, a *action, want, res *result, chain
 				d = "error.code"
 			}
 		default:
-			d = sharedDiff(x["result"], y["result"], "result", false)
+			yr := y["result"]
+			if m, isObj := yr.(map[string]any); isObj && a.Name == "getStorageAt" {
+				yr = m["value"] // {value, last_update_block} against the plain felt of v0.9
+			}
+			d = sharedDiff(x["result"], yr, "result", false)
 		}
 		r.out.Count("version_pairs_compared", 1)
 		if d != "" {
 			key := fmt.Sprintf("rpc-read:%s:%s~%s:%s:%s", a.Name, pair[0], pair[1], shape, d)
-			if stateMethods[a.Name] && shape == "hash-zero" && res.Kind == "pseudo" {
+			rs := res
+			if flagged(a) && pair[1] != "v10" {
+				rs = res0
+			}
+			if stateMethods[a.Name] && shape == "hash-zero" && rs.Kind == "pseudo" {
 				key = fmt.Sprintf("rpc-read:state-at-zero-hash:%s:%s", a.Name, r.s.backend)
 			}
 			r.diverge(key, fmt.Sprintf("%s and %s disagree on %s of %s (%s)", pair[0], pair[1], d, a.Name, r.s.backend),
@@ -1308,8 +1621,8 @@ func (r *replayer) race(beh []step, idx int) {
 	st := &beh[idx]
 	a := st.A.Read
 	allowed := st.Want.Allowed
-	params := r.s.params(r.w, a)
-	req := requestJSON(a.Name, params)
+	salt := hashOf(r.w.seed, idx, a, "flags")
+	allowed0 := unflag(&st.Want).Allowed // what v0.8 / v0.9 (asked without response_flags) may answer
 	type answer struct {
 		out []byte
 		err error
@@ -1326,6 +1639,7 @@ func (r *replayer) race(beh []step, idx int) {
 		// handlers cache and the in-flight request must be allowed to be the FIRST one to ask.
 		// Gates beyond the request's last read are simply never reached (the request comes first).
 		n := maxGate
+		req := requestJSON(a.Name, r.s.params(r.w, a, v, salt))
 		for k := 1; k <= n; k++ {
 			paused, release := r.s.store.p.arm(k)
 			f := &flight{v: v, k: k, n: n, done: make(chan answer, 1), release: release}
@@ -1451,6 +1765,9 @@ func (r *replayer) race(beh []step, idx int) {
 		ok := false
 		for i := range allowed {
 			w := allowed[i]
+			if v != "v10" {
+				w = allowed0[i]
+			}
 			if v == "v8" && isTag(a) {
 				w = result{Kind: "err", E: "InvalidParams"}
 			}
@@ -1484,7 +1801,7 @@ func (r *replayer) race(beh []step, idx int) {
 			observe("torn-answer", a.Name, v, what)
 			continue
 		}
-		r.diverge(key, what, beh, idx, allowed, vh.J{"abstract": got, "request": params, "response": resp, "gate": k, "reads": n})
+		r.diverge(key, what, beh, idx, allowed, vh.J{"abstract": got, "request": r.s.params(r.w, a, v, salt), "response": resp, "gate": k, "reads": n})
 	}
 	// once the dust has settled every version answers for the final chain
 	last := allowed[len(allowed)-1]
@@ -1492,7 +1809,8 @@ func (r *replayer) race(beh []step, idx int) {
 	if a.Name == "getTransactionByBlockIdAndIndex" && a.ID.K == "num" && a.ID.N >= len(st.Chain) {
 		asIs = result{Kind: "err", E: "InvalidTxnIndex"} // what the model of the code as it is answers (ITxByIndex)
 	}
-	r.read(beh, idx, a, &last, &asIs, st.Chain, st.L1)
+	last0, asIs0 := unflag(&last), unflag(&asIs)
+	r.read(beh, idx, a, &last, &asIs, &last0, &asIs0, st.Chain, st.L1)
 }
 
 func brief(r *result) string {
@@ -1500,13 +1818,13 @@ func brief(r *result) string {
 	case "err":
 		return r.E
 	case "block":
-		return fmt.Sprintf("block %d %v %s txs=%v", r.N, r.Hash, r.Status, r.Txs)
+		return fmt.Sprintf("block %d %v %s txs=%v proof_facts=%v", r.N, r.Hash, r.Status, r.Txs, r.Pfs)
 	case "num":
 		return fmt.Sprintf("%d", r.N)
 	case "hashnum":
 		return fmt.Sprintf("(%v,%d)", r.Hash, r.N)
 	case "tx":
-		return fmt.Sprintf("tx %d %s", r.T, r.Type)
+		return fmt.Sprintf("tx %d %s proof_facts:%s", r.T, r.Type, r.Pf)
 	case "receipt":
 		return fmt.Sprintf("receipt of tx %d in block %d %v %s %s", r.T, r.N, r.Hash, r.Fin, r.Exec)
 	case "status":
@@ -1516,6 +1834,8 @@ func brief(r *result) string {
 		return fmt.Sprintf("update of %v old=%v new=%v %s", r.Hash, r.Old, r.New, b)
 	case "felt":
 		return fmt.Sprintf("0x%x", r.V)
+	case "feltlub":
+		return fmt.Sprintf("{value 0x%x, last_update_block %d}", r.V, r.Lub)
 	case "classhash", "class":
 		return fmt.Sprintf("class k%d", r.C)
 	}
@@ -1558,7 +1878,7 @@ func TestRpcReadReplay(t *testing.T) {
 				case "ReadDuring":
 					r.race(beh, i)
 				default:
-					r.read(beh, i, &st.A, &st.Want, &st.Res, st.Chain, st.L1)
+					r.read(beh, i, &st.A, &st.Want, &st.Res, &st.Want0, &st.Res0, st.Chain, st.L1)
 				}
 				if r.dead || hangs >= maxHangs {
 					break
